@@ -64,3 +64,38 @@ func modelStats(n int) {
 	}
 	fmt.Printf("mismatches=%d of %d\n", mism, n)
 }
+
+// modelPathStats (flag -modelpaths) shows what the aware model-path generator produces for C07-like documents.
+func modelPathStats(n int) {
+	simrt.Seed(4242)
+	dg := docGen{}
+	hits, withUnion, adj := 0, 0, 0
+	shown := 0
+	for i := 0; i < n; i++ {
+		var doc interface{}
+		if chance(70) {
+			doc = dg.orderObject(1 + rn(3))
+		} else {
+			doc = dg.doc(true)
+		}
+		p := genModelPathFor(doc, true)
+		m := modelEval(p.Model, doc)
+		if len(m) > 0 {
+			hits++
+		}
+		for _, st := range p.Model {
+			if st.Kind == mIndexUnion {
+				withUnion++
+				break
+			}
+		}
+		if containsStr(p.Text, "-1,0") {
+			adj++
+			if shown < 5 {
+				shown++
+				fmt.Println(p.Text, len(m))
+			}
+		}
+	}
+	fmt.Printf("paths=%d selecting=%d with-index-union=%d with[-1,0]=%d\n", n, hits, withUnion, adj)
+}
